@@ -81,6 +81,16 @@ def observe(c):
         return []
     n = Dn.shape[0]
     tdt = opsfam.tol_dt(c)
+    rows = c.get("_rows")
+    if rows is not None:
+        # the same dense operator with badly scaled ROWS (diag(r) A): pivoting order and equilibration paths
+        inner = t["a"][0] if t["k"] == "Annot" else t
+        r = np.asarray(rows, dtype=float)[:Dn.shape[0]]
+        A = cola.ops.Dense(np.asarray(build.build(inner).A) * r[:, None])
+        Dn = Dn * r[:, None]
+        kappa = 1.0          # judged row-wise below: relative to each row's own scale
+        case = f"diag({list(r)}) * {case}"
+        at["row_scaled"] = True
     sc = c.get("_scale")
     if sc is not None:
         # the same dense operator times a power of ten: the factorisations scale with it (L by sqrt(c), P L U by c) and
@@ -112,7 +122,7 @@ def observe(c):
     at["factor_not_pd"] = some_factor_not_pd(t) if c["pd"] else False
     with warnings.catch_warnings():
         warnings.simplefilter("ignore")
-        if c["pd"]:
+        if c["pd"] and rows is None:
             try:
                 L = cholesky(A)
                 Ld = np.asarray(L.to_dense())
@@ -152,7 +162,12 @@ def observe(c):
                         if np.max(np.abs(np.tril(Ud, -1))) > tol:
                             V("plu_upper", "U is not upper triangular")
                         err = np.max(np.abs(Pd @ Ld @ Ud - Dn))
-                        if err > tol:
+                        if rows is not None:
+                            # LU with partial pivoting is backward stable row by row: judge each row on its own scale
+                            rel = np.max(np.abs(Pd @ Ld @ Ud - Dn), axis=1) / np.max(np.abs(Dn), axis=1)
+                            if np.max(rel) > (5e-3 if tdt in ("f32", "c64") else 1e-8):
+                                V("plu_product", f"P L U differs from the matrix: row-wise relative error {np.max(rel):.3g}")
+                        elif err > tol:
                             V("plu_product", f"P L U differs from the matrix: max abs error {err:.3g}")
                     if root_kind in ("Kronecker", "BlockDiag"):
                         for nm, fac in (("P", P), ("L", L), ("U", U)):
@@ -181,10 +196,14 @@ def run(tier):
         rest = [c for c in deep if not c["pd"]]
         step = max(1, len(rest) // 5000)
         cases = [c for c in cases if c["lvl"] <= 1] + keep_pd + rest[common.seed() % step::step]
+    # badly scaled rows on the dense leaves of dimension >= 3 (two orders of the scales: different pivot cycles)
+    rowsc = [dict(c, _rows=r) for c in cases if c["t"]["k"] == "Dense" and c["dense"]["r"] >= 3
+             and opsfam.tol_dt(c) in ("f64", "c128") for r in ([1e-5, 1e5, 1.0, 1e-2, 1e3], [1e5, 1.0, 1e-5, 1e3, 1e-2],
+                                                                [1.0, 1e-5, 1e5, 1e2, 1e-3])]
     scaled = [dict(c, _scale=f) for c in cases
               if (c["t"]["k"] == "Dense" or (c["t"]["k"] == "Annot" and c["t"]["a"][0]["k"] == "Dense"))
               and opsfam.tol_dt(c) in ("f64", "c128") for f in (1e-9, 1e6)]
-    cases = cases + scaled
+    cases = cases + scaled + rowsc
     res = common.pmap(observe, cases, chunksize=16)
     viol = [v for r in res for v in r]
     nontriv = {json.dumps(c["t"], sort_keys=True) for c in cases if opsfam.nontrivial(c)}
